@@ -428,4 +428,43 @@ theorem readLoop_alloc_bound (env : Env B H) (ops : SockOps σ) :
         have := ih c2 s1 _ _ o ho
         omega
 
+
+/-! ### item count vs. length (after the repair 8eb131841 of the `BlockHeaders` arm) -/
+
+/-- no items left: the arm refuses with `BadMessage` before decoding anything, whatever is buffered -/
+theorem stepState_zero_items (env : Env B H) (bl : Nat) (hs : List H) (buffer : Bytes) (nl : Nat) :
+    stepState env ({ buffer := buffer, state := .blockHeaders bl 0 hs } : Codec H) nl =
+      .inl (.err .badMessage, { buffer := buffer, state := .none }, 0) := by
+  simp [stepState]
+
+/-- a batch handed to the caller carries `remaining = items_left − 1` with `items_left ≥ 1`: the
+decrement never wraps -/
+theorem stepState_headers_remaining (env : Env B H) (bl il : Nat) (hs : List H) (buffer : Bytes) (nl : Nat)
+    (hil : il < USIZE_MOD) (hs' : List H) (rem : Nat) (c2 : Codec H) (a : Nat)
+    (h : stepState env ({ buffer := buffer, state := .blockHeaders bl il hs } : Codec H) nl =
+      .inl (.msg (.headers hs' rem), c2, a)) : rem + 1 = il := by
+  unfold stepState at h
+  simp only at h
+  split at h
+  · simp at h
+  · rename_i hg
+    simp only [not_or] at hg
+    have hw : (il + USIZE_MOD - 1) % USIZE_MOD = il - 1 := by
+      have : il + USIZE_MOD - 1 = (il - 1) + USIZE_MOD := by omega
+      rw [this, Nat.add_mod_right]; exact Nat.mod_eq_of_lt (by omega)
+    cases hd : env.decItem buffer with
+    | error e => simp [hd] at h
+    | ok p =>
+      obtain ⟨hh, rest⟩ := p
+      simp only [hd] at h
+      split at h
+      · split at h
+        · split at h
+          · simp at h
+          · simp only [Sum.inl.injEq, Prod.mk.injEq, Res.msg.injEq, Message.headers.injEq] at h
+            rw [← h.1.2, hw]; omega
+        · simp only [Sum.inl.injEq, Prod.mk.injEq, Res.msg.injEq, Message.headers.injEq] at h
+          rw [← h.1.2, hw]; omega
+      · simp at h
+
 end GV.Codec
